@@ -21,6 +21,12 @@ type c20Plan struct {
 	Order  int   `json:"order"`  // index into the mixed-radix space of Fisher-Yates choice sequences
 	Digits []int `json:"digits"` // the choices (n = len+1 keys): digit i is drawn from [0, len+1-i)
 	NKeys  int   `json:"nkeys"`
+	// CallSeed orders the evaluations of a run (every call is made twice, at shuffled positions): the answers may
+	// not depend on what was evaluated before - in this run or, one run being one process, in this process.
+	CallSeed uint64 `json:"call_seed"`
+	// Tasks is the number of tasks of the concurrent execution.
+	Tasks int   `json:"tasks"`
+	Knobs Knobs `json:"knobs"`
 }
 
 type c20 struct{}
@@ -37,10 +43,10 @@ func (c20) NRuns(tier string) int {
 	return 720
 }
 func (c20) Rule() string {
-	return "one run per iteration order of the 7-key level map (orders enumerated as Fisher-Yates choice sequences, without replacement; thorough = all 5040 = exhaustive); each run evaluates sql levels -8..64 forward and ASE levels -3..8 backward under the canonical order and under the run's order; non-trivial = order differs from canonical; distinct = distinct order"
+	return "one run = one fresh worker process and one iteration order of the 7-key level map (orders enumerated as Fisher-Yates choice sequences, without replacement; thorough = all 5040 = exhaustive over orders); each run evaluates sql levels -8..64 forward and ASE levels -3..8 backward, every call twice at seeded shuffled positions, (1) under the canonical map order, (2) under the run's order, (3) from 2..4 concurrent tasks under a seeded schedule and the race detector; all answers for one input must agree and match the statement's table; non-trivial = order differs from canonical; distinct = distinct order"
 }
 func (c20) Components() map[string]string {
-	return map[string]string{"isolationlevels.go": "real (rewritten)", "map iteration order": "stub: simrt.MapKeys seeded permutation"}
+	return map[string]string{"isolationlevels.go": "real (rewritten)", "map iteration order": "stub: simrt.MapKeys seeded permutation", "goroutine scheduling": "simulated (simrt baton scheduler) in the concurrent execution", "process": "real: one OS process per run"}
 }
 
 func c20Digits(order int) []int {
@@ -58,7 +64,7 @@ func (c20) Gen(r *Rand, idx int, tier string) interface{} {
 	if tier != "thorough" {
 		order = (idx*7 + idx%7) % 5040
 	}
-	return &c20Plan{Order: order, Digits: c20Digits(order), NKeys: c20Keys}
+	return &c20Plan{Order: order, Digits: c20Digits(order), NKeys: c20Keys, CallSeed: r.Uint64(), Tasks: 2 + r.Intn(3), Knobs: GenKnobs(r)}
 }
 
 func (c20) Decode(raw json.RawMessage) (interface{}, error) {
@@ -74,38 +80,61 @@ func (c20) Run(plan interface{}, schedSeed uint64, replay []simrt.Choice, lenien
 	p := plan.(*c20Plan)
 	v := &Verdict{}
 
-	type answers struct {
-		fwd    map[int]string
-		toGo   map[int]int
-		str    map[int]string
-		rt     map[int]int
-		nCalls int
+	// the calls of a run: kind f = FromGo (+ ToGo of the result), t = ToGo, s = String
+	type call struct {
+		kind byte
+		x    int
 	}
-	eval := func() *answers {
-		a := &answers{fwd: map[int]string{}, toGo: map[int]int{}, str: map[int]string{}, rt: map[int]int{}}
+	type answer struct {
+		c   call
+		ans string
+		who string
+	}
+	var calls []call
+	for rep := 0; rep < 2; rep++ {
 		for x := -8; x <= 64; x++ {
-			l, err := dblib.ASEIsolationLevelFromGo(sql.IsolationLevel(x))
-			if err != nil {
-				a.fwd[x] = "error"
-				if l != dblib.ASELevelInvalid {
-					a.fwd[x] = fmt.Sprintf("error+level%d", int(l))
-				}
-			} else {
-				a.fwd[x] = fmt.Sprintf("%d", int(l))
-				a.rt[x] = int(l.ToGo())
-				a.nCalls++
-			}
+			calls = append(calls, call{'f', x})
 		}
 		for l := -3; l <= 8; l++ {
-			a.toGo[l] = int(dblib.ASEIsolationLevel(l).ToGo())
-			a.str[l] = dblib.ASEIsolationLevel(l).String()
-			a.nCalls += 2
+			calls = append(calls, call{'t', l}, call{'s', l})
 		}
-		return a
+	}
+	cr := NewRand(p.CallSeed)
+	for i := len(calls) - 1; i > 0; i-- {
+		j := cr.Intn(i + 1)
+		calls[i], calls[j] = calls[j], calls[i]
+	}
+	do := func(c call) string {
+		switch c.kind {
+		case 'f':
+			l, err := dblib.ASEIsolationLevelFromGo(sql.IsolationLevel(c.x))
+			if err != nil {
+				if l != dblib.ASELevelInvalid {
+					return fmt.Sprintf("error+level%d", int(l))
+				}
+				return "error"
+			}
+			return fmt.Sprintf("%d back=%d", int(l), int(l.ToGo()))
+		case 't':
+			return fmt.Sprint(int(dblib.ASEIsolationLevel(c.x).ToGo()))
+		default:
+			return fmt.Sprintf("%q", dblib.ASEIsolationLevel(c.x).String())
+		}
+	}
+	eval := func(who string, rot int, yield bool) []answer {
+		out := make([]answer, 0, len(calls))
+		for i := range calls {
+			c := calls[(i+rot)%len(calls)]
+			out = append(out, answer{c, do(c), who})
+			if yield {
+				simrt.Yield(0)
+			}
+		}
+		return out
 	}
 
-	// Two simulated executions: the canonical order (Fisher-Yates choices that never swap) and the run's
-	// order. The choice tape is the order's digit sequence, cycled for every map iteration of the run.
+	// Three simulated executions: the canonical map order (Fisher-Yates choices that never swap), the run's
+	// order (the choice tape is the order's digit sequence, cycled for every map iteration), and a concurrent one.
 	tape := func(identity bool) []simrt.Choice {
 		var t []simrt.Choice
 		for i, d := range p.Digits {
@@ -117,20 +146,41 @@ func (c20) Run(plan interface{}, schedSeed uint64, replay []simrt.Choice, lenien
 		}
 		return t
 	}
-	var ref, got *answers
+	var ref, got []answer
 	s1 := simrt.New(simrt.Config{Seed: schedSeed, Replay: tape(true), Lenient: true, Cycle: true})
-	out1 := s1.Run(func() { ref = eval() })
-	s2 := simrt.New(simrt.Config{Seed: schedSeed, Replay: tape(false), Lenient: true, Cycle: true, KeepLog: keepLog})
-	out := s2.Run(func() { got = eval() })
+	out1 := s1.Run(func() { ref = eval("canonical order", 0, false) })
+	s2 := simrt.New(simrt.Config{Seed: schedSeed, Replay: tape(false), Lenient: true, Cycle: true})
+	out2 := s2.Run(func() { got = eval("run's order", 0, false) })
+	cfg := p.Knobs.Config(schedSeed)
+	cfg.Replay, cfg.Lenient, cfg.KeepLog = replay, lenient, keepLog
+	s3 := simrt.New(cfg)
+	conc := make([][]answer, p.Tasks)
+	out := s3.Run(func() {
+		var ts []*simrt.Task
+		for ti := 0; ti < p.Tasks; ti++ {
+			ti := ti
+			ts = append(ts, simrt.Spawn(fmt.Sprintf("t%d", ti), func() {
+				conc[ti] = eval(fmt.Sprintf("concurrent task %d", ti), ti*37, true)
+			}))
+		}
+		simrt.Join(ts...)
+	})
 	StdOutcome(v, out1)
+	StdOutcome(v, out2)
 	StdOutcome(v, out)
 	if v.Machinery != "" {
 		return v, out
 	}
-	for _, o := range []*simrt.Outcome{out1, out} {
+	for _, o := range []*simrt.Outcome{out1, out2, out} {
 		for _, c := range o.Crashes {
 			v.Violate("panic", "panic "+CrashSig(c), "panicked: %s\n%s", c.Value, c.Stack)
 		}
+	}
+	if len(out.Parked) > 0 && !out.Budget {
+		v.Violate("deadlock", "deadlock "+ParkSig(out, Sites), "concurrent evaluation never finished: %v", out.Parked)
+	}
+	if out.Races > 0 {
+		v.Violate("race", "race", "the race detector reported %d data race(s) between concurrent translations", out.Races)
 	}
 	if v.Class != "" || ref == nil || got == nil {
 		return v, out
@@ -151,30 +201,43 @@ func (c20) Run(plan interface{}, schedSeed uint64, replay []simrt.Choice, lenien
 	if len(levels) != 4 {
 		v.Violate("wrong-value", "ase-levels-not-distinct", "the four ASE levels are not four distinct values: %v", want)
 	}
-	for _, a := range []*answers{ref, got} {
-		for x := -8; x <= 64; x++ {
-			w, supported := want[x]
-			if !supported {
-				w = "error"
-			}
-			if a.fwd[x] != w {
-				v.Violate("wrong-value", fmt.Sprintf("forward sql=%d", x), "ASEIsolationLevelFromGo(%d) = %s, want %s (order %v)", x, a.fwd[x], w, p.Digits)
-			}
-		}
-		// there and back for supported non-default levels
-		for x, back := range a.rt {
-			if x != int(sql.LevelDefault) && back != x {
-				v.Violate("roundtrip", fmt.Sprintf("roundtrip sql=%d", x), "ToGo(FromGo(%d)) = %d under iteration order %v", x, back, p.Digits)
-			}
-		}
+	all := append(append([]answer{}, ref...), got...)
+	for _, c := range conc {
+		all = append(all, c...)
 	}
-	// backward mapping and printing: one answer per level whatever the iteration order
-	for l := -3; l <= 8; l++ {
-		if ref.toGo[l] != got.toGo[l] {
-			v.Violate("order-dependent", fmt.Sprintf("ToGo ase=%d", l), "ASEIsolationLevel(%d).ToGo() = %d under the canonical map order but %d under order %v", l, ref.toGo[l], got.toGo[l], p.Digits)
+	first := map[call]answer{}
+	for _, a := range all {
+		kind := map[byte]string{'f': "FromGo", 't': "ToGo", 's': "String"}[a.c.kind]
+		if f, seen := first[a.c]; !seen {
+			first[a.c] = a
+		} else if f.ans != a.ans {
+			cls := "inconsistent"
+			if f.who == "canonical order" && a.who == "run's order" {
+				cls = "order-dependent"
+			}
+			v.Violate(cls, fmt.Sprintf("%s %s %d", cls, kind, a.c.x), "%s(%d) = %s (%s) but %s (%s); map order %v, call seed %d", kind, a.c.x, f.ans, f.who, a.ans, a.who, p.Digits, p.CallSeed)
 		}
-		if ref.str[l] != got.str[l] {
-			v.Violate("order-dependent", fmt.Sprintf("String ase=%d", l), "ASEIsolationLevel(%d).String() = %q under the canonical map order but %q under order %v", l, ref.str[l], got.str[l], p.Digits)
+		if a.c.kind != 'f' {
+			continue
+		}
+		w, supported := want[a.c.x]
+		switch {
+		case !supported:
+			if a.ans != "error" {
+				v.Violate("wrong-value", fmt.Sprintf("forward sql=%d", a.c.x), "ASEIsolationLevelFromGo(%d) = %s, want an error (%s)", a.c.x, a.ans, a.who)
+			}
+		case a.c.x == int(sql.LevelDefault):
+			if a.ans != w+" back="+fmt.Sprint(int(sql.LevelReadCommitted)) {
+				v.Violate("wrong-value", fmt.Sprintf("forward sql=%d", a.c.x), "ASEIsolationLevelFromGo(default) = %s, want level %s which translates back to read committed (%s)", a.ans, w, a.who)
+			}
+		default:
+			if a.ans != fmt.Sprintf("%s back=%d", w, a.c.x) {
+				cls, sig := "wrong-value", fmt.Sprintf("forward sql=%d", a.c.x)
+				if len(a.ans) > len(w) && a.ans[:len(w)+1] == w+" " {
+					cls, sig = "roundtrip", fmt.Sprintf("roundtrip sql=%d", a.c.x)
+				}
+				v.Violate(cls, sig, "ASEIsolationLevelFromGo(%d) and back = %s, want level %s and back=%d (%s; map order %v)", a.c.x, a.ans, w, a.c.x, a.who, p.Digits)
+			}
 		}
 	}
 	nontrivial := false
@@ -186,7 +249,8 @@ func (c20) Run(plan interface{}, schedSeed uint64, replay []simrt.Choice, lenien
 	if nontrivial {
 		v.Nontrivial = fmt.Sprint(p.Order)
 	}
-	v.ProbeN("map-iterations", len(out.Tape)/len(p.Digits))
-	v.Sample = map[string]interface{}{"order": p.Order, "digits": p.Digits, "toGo": got.toGo}
+	v.ProbeN("map-iterations", len(out2.Tape)/len(p.Digits))
+	v.ProbeN("concurrent-evaluations", len(conc)*len(calls))
+	v.Sample = map[string]interface{}{"order": p.Order, "digits": p.Digits, "tasks": p.Tasks, "calls": len(all)}
 	return v, out
 }
